@@ -34,6 +34,9 @@ pub struct Session<'buf> {
     packet_reader: PacketReader<'buf>,
     data: SessionData<'buf>,
     runtime: RuntimeState,
+    /// Configured keep-alive: what every CONNECT asks for. A Server Keep Alive overrides it in
+    /// `runtime` for one connection only.
+    keepalive_interval: embassy_time::Duration,
     will: Option<Will<'buf>>,
     auth: Option<Auth<'buf>>,
     session_expiry_interval: u32,
@@ -59,6 +62,7 @@ impl<'buf> Session<'buf> {
             packet_reader: PacketReader::new(rx),
             data: SessionData::new(tx),
             runtime: RuntimeState::new(keepalive_interval),
+            keepalive_interval,
             will,
             auth,
             session_expiry_interval,
